@@ -12,7 +12,7 @@ for d in seeded/*/; do
   d=${d%/}; [ -f $d/patch.diff ] || continue
   name=$(basename $d)
   if [ -n "${PROP[$name]:-}" ]; then prop=${PROP[$name]}; else prop=${name%%-*}; fi
-  case "$prop" in W2|W3|W4) t=${name#W?-}; prop=${t%%-*};; esac
+  case "$prop" in W[0-9]) t=${name#W?-}; prop=${t%%-*};; esac
   echo "S $name $d/patch.diff $prop" >> $jobs
 done
 for w in refactors/wave*/; do
